@@ -3,3 +3,7 @@ pub mod c17;
 pub mod c18;
 pub mod c01;
 pub mod c15;
+pub mod c02;
+pub mod c03;
+pub mod c04;
+pub mod c16;
